@@ -60,7 +60,7 @@ impl QGen {
             11 => format!("KEY{} {}", self.qual(), self.var()),
             12 => match self.rng.below(3) { 0 => "SUBSTORE NONE".to_string(), 1 => format!("SUBSTORE {}", self.var()), _ => format!("SUBSTORE {}", self.q()) },
             13 => { let n = 2 + self.rng.below(2); let subs: Vec<String> = (0..n).map(|_| self.constraint(depth + 1)).collect(); format!("[ {} ]", subs.join(" OR ")) }
-            _ => match self.rng.below(3) { 0 => format!("LIMIT {}", self.rng.below(20)), 1 => format!("LIMIT -{}", self.rng.below(20)), _ => format!("LIMIT {} {}", self.rng.below(9), self.rng.below(20)) },
+            _ => match self.rng.below(3) { 0 => format!("LIMIT {}", self.rng.below(20)), 1 => format!("LIMIT -{}", self.rng.below(20)), _ => format!("LIMIT {} {}", self.rng.range(-9, 9), self.rng.range(-9, 20)) },
         };
         if depth == 0 { format!("{}{};", attrs, body) } else { body }
     }
@@ -335,9 +335,10 @@ pub fn built_constraints() -> Vec<Constraint<'static>> {
     for re in ["a+b", "[A-Z]\\w+", "x|y", "^the (big|small) dog$"] {
         v.push(Constraint::Regex(regex::Regex::new(re).unwrap()));
     }
-    for (b, e) in [(0isize, 5isize), (0, 0), (3, 9), (-4, 0), (-9, -2), (2, -1)] {
+    // every sign combination of (begin, end): the short forms `LIMIT n` / `LIMIT -n` stand for (0, n) / (-n, 0) only
+    for b in [-9isize, -2, -1, 0, 1, 3] { for e in [-9isize, -2, -1, 0, 1, 5] {
         v.push(Constraint::Limit { begin: b, end: e });
-    }
+    } }
     v.push(Constraint::Union(vec![Constraint::Id("a"), Constraint::Id("b")]));
     v.push(Constraint::Union(vec![Constraint::DataKey { set: "s", key: "k", qualifier: SelectionQualifier::Normal }, Constraint::KeyValue { set: "s", key: "k", operator: DataOperator::EqualsInt(1), qualifier: SelectionQualifier::Metadata }, Constraint::Text("x", TextMode::Exact)]));
     v.push(Constraint::Union(vec![Constraint::Id("a")]));
